@@ -155,7 +155,7 @@ Theorem depths_after_error : forall body c c',
 Proof. exact depths_after_error_proof. Qed.
 
 (* local contract of EVERY re-entry point (EvalCallExpression / Apply / Force, CallUserFunction,
-   EvalFunction): on error the code that made the re-entry gets back exactly the control state it
+   EvalFunction, SourceExpressions): on error the code that made the re-entry gets back exactly the control state it
    had, so host code may handle the error and go on.  (Until /repo commit 4b37dbf EvalFunction had
    no capture/restore and this statement was refuted for it - finding evalfunction-no-restore,
    found by the harness kind catch-eval-runtime; the harness keeps that kind as a regression test.) *)
@@ -190,6 +190,10 @@ Example ex_fails : fst (run_session 50 1 [TForms ex_forms; TForms [EVar 100]; TF
 Proof. vm_compute. reflexivity. Qed.
 Example ex_clean : fst (run_session 50 0 [TForms ex_forms; TForms [EVar 101]]) = [Done (SvInt 2); Done (SvInt 2)].
 Proof. vm_compute. reflexivity. Qed.
+(* the host loads a text through SourceStream / SourceFile at rest and the text fails at run time *)
+Example ex_source_at_rest :
+  exec (capture c_rest) (AReenter KSource false [APush SScope 3; APush SData 4; AJump 10 7; AFail]) c_rest = Err c_rest.
+Proof. exact source_at_rest_witness. Qed.
 Example ex_evalfn_restores : exec (capture c_rest) (AReenter KEvalFn false [AFail]) c_rest = Err c_rest.
 Proof. exact evalfn_restores_witness. Qed.
 (* the machine: an error three re-entries deep, with a caught error on the way *)
